@@ -10,7 +10,23 @@ import (
 // and the real search returns exactly the brute-force top-k up to ties. Pairwise distances are an arbitrary
 // symmetric non-negative function with d(x,x) = 0 (no triangle inequality assumed); soft deletes may
 // happen between inserts.
-func ZZVerifC07ExactSmall() {
+func ZZVerifC07ExactSmall() { zzC07Exact() }
+
+// ZZVerifC07ExactLevels: the same claim with the level of every inserted node chosen arbitrarily in 0..LMAX
+// (the real randomLevel draws it at random and caps it at the current maximum + 1; the model keeps the cap), so
+// that the multi-layer descent of Add and of the search, and deletes of upper-layer entry points, are covered.
+func ZZVerifC07ExactLevels() { zzC07Exact() }
+
+// ZZRandomLevelSym replaces Index.randomLevel: an arbitrary level in 0..LMAX, capped like the real function.
+func ZZRandomLevelSym(h *Index) int {
+	lv := rt.IntRange("level", 0, rt.Param("LMAX", 1))
+	if cur := int(h.maxLevel.Load()); lv > cur+1 {
+		return cur + 1
+	}
+	return lv
+}
+
+func zzC07Exact() {
 	n := rt.IntRange("n", 1, rt.Param("N", 3))
 	h, err := New(2, 4, distance.Euclidean, distance.Float32, "", "")
 	rt.Assert(err == nil, "index construction")
